@@ -1,11 +1,14 @@
 """C23 Merge-time permission hardening never lets unsafe modes through."""
 
+import posixpath
+
 ID = "C23"
 LEVEL = "exploration"
 TECHNIQUE = "invariant on engine.csets['new_cset'] before/after the real pre_merge hook"
 RULE = ("content sets of 1-40 entries (files, dirs, symlinks, fifos, char/block devices) covering every one of the 4096 "
         "permission values x 5 entry types (enumerated round-robin over the shards) with owners from {0, build uid, "
-        "other} and groups from {0, build gid, other}, plus random sets; passed through MergeEngine.install(...)."
+        "other} and groups from {0, build gid, other}, symlink targets in and out of normalised form (../lib//x, a/../b, "
+        "./x, dir/), plus random sets; passed through MergeEngine.install(...)."
         "pre_merge() with fix_uid_perms(uid=U), fix_gid_perms(gid=G), fix_set_bits(), detect_world_writable(fix_perms "
         "True/False) registered explicitly (disable_plugins=True), offset '/' and a nested offset, several registration "
         "orders. Non-trivial entry = set-id + world-writable, or owned by the build user/group; distinct = (type, mode, "
@@ -13,14 +16,15 @@ RULE = ("content sets of 1-40 entries (files, dirs, symlinks, fifos, char/block 
 ASSUMPTIONS = [
     "the build user/group are the uid/gid given to fix_uid_perms/fix_gid_perms (this sandbox has no portage user: the defaults are 0/0 and vacuous); root = 0",
     "symlink entries are not judged for mode bits (a symlink has no permission bits of its own on Linux; the statement's 'entry to be merged' is read as an entry whose mode is applied)",
-    "unchanged data = the same data-source object; unchanged type = same fs class",
+    "unchanged data = the same data-source object; unchanged type = same fs class; the target of a symlink that a fix "
+    "trigger re-owns is compared with the target in the package's own contents (before the engine inserts the offset)",
     "mode bits other than set-id/world-writable, owners that are not the build user, and mtimes are not constrained by the statement: deviations there are counted, not reported",
 ]
 SHARDS = {"quick": 4, "thorough": 16}
 TIMEOUT = {"quick": 240, "thorough": 1800}
 MIN_EVALS = 100000
 REQUIRED_COUNTERS = ("entries_setid_and_world_writable", "entries_owned_by_build_user", "entries_owned_by_build_group",
-                     "pre_merge_runs", "type:file", "type:dir", "type:symlink", "type:fifo", "type:dev")
+                     "pre_merge_runs", "reowned_symlinks_with_unnormalised_target", "type:file", "type:dir", "type:symlink", "type:fifo", "type:dev")
 
 TYPES = ("file", "dir", "symlink", "fifo", "dev")
 
@@ -95,6 +99,8 @@ def judge(ctx, case):
             "ww": lambda: triggers.detect_world_writable(fix_perms=case["fix_perms"])}
     for name in case["order"]:
         made[name]().register(eng)
+    off = case["offset"].rstrip("/")
+    orig_target = {posixpath.normpath(off + s_["loc"]): s_["target"] for s_ in case["entries"] if s_["t"] == "symlink"}
     before = {x.location: x for x in eng.csets["new_cset"]}
     snap = {loc: {"type": _type_of(x), "mode": x.mode, "uid": x.uid, "gid": x.gid, "mtime": x.mtime,
                   "target": getattr(x, "target", None) if x.is_sym else None,
@@ -161,8 +167,16 @@ def judge(ctx, case):
             flag("type-changed", loc)
         if a.location != loc:
             flag("location-changed", loc)
-        if t == "symlink" and a.target != b["target"]:
-            flag("target-changed", loc)
+        if t == "symlink":
+            want = b["target"]
+            if (b["uid"] == U or b["gid"] == G) and loc in orig_target:
+                # an entry a fix trigger rebuilds: judged against the target the package itself recorded
+                want = orig_target[loc]
+                ctx.count("reowned_symlinks_judged")
+                if want != posixpath.normpath(want):
+                    ctx.count("reowned_symlinks_with_unnormalised_target")
+            if a.target != want:
+                flag("target-changed", loc, original_target=want, target_after=a.target)
         if t == "file" and id(a.data) != b["data_id"]:
             flag("data-changed", loc)
         if t == "dev" and (a.major, a.minor) != b["dev"]:
@@ -209,7 +223,8 @@ def _entry(rng, t, mode, idx, U, G):
             "uid": rng.choice([0, U, U, other_u]), "gid": rng.choice([0, G, G, other_g]),
             "mtime": 1_500_000_000 + idx}
     if t == "symlink":
-        spec["target"] = rng.choice(["../x", "/abs/target", "e0_file"])
+        spec["target"] = rng.choice(["../x", "/abs/target", "e0_file", "../lib//x", "a/../b", "./x", "dir/",
+                                     "..//y/", "/abs//t/../u", "."])
     if t == "file":
         spec["data"] = "payload %d" % idx
     if t == "dev":
